@@ -43,6 +43,9 @@ def vector_ro(rng, n, ed_start, explicit_start=(), explicit_end=()):
 
 def run(s):
     q = s.tier == 'quick'
+    for k_, txt_ in enumerate(K.idless_states()):
+        if s.mine(k_):
+            acc.sweep(s, s.load(txt_), txt_, {'workload': 'id-less elements'})
 
     def on_pair_state(ro, cur, ev):
         acc.sweep(s, ro, cur, {'workload': 'pair-history'}, after=(ev or {}).get('msg_cls'))
